@@ -135,7 +135,7 @@ def _install_audit(fd, utime_delay):
             if isinstance(rec.get("path"), bytes):
                 rec["path"] = rec["path"].decode("utf-8", "replace")
             os.write(fd, (json.dumps(rec) + "\n").encode())
-            if event == "os.utime" and utime_delay:
+            if utime_delay and (event == "os.utime" or (event == "open" and isinstance(args[2], int) and args[2] & os.O_CREAT and not isinstance(args[1], str))):
                 time.sleep(utime_delay)
         except Exception:
             pass
